@@ -497,6 +497,10 @@ def run_gen(sc, prefer=None, xcheck=None, wall_cap=None, keep_sets=True):
     tr = Trace()
     if wall_cap is None:
         wall_cap = WALL_CAP
+    if sc.get('giant'):
+        # a generator run with more than 65535 agents takes seconds, under
+        # machine load much longer: its own cap, and a timeout is not judged
+        wall_cap = max(wall_cap, 900.0)
     clock = world.SimClock(sc.get('clock_seed', 0))
     log = _mk_log(tr, clock)
     clock.log = log
